@@ -69,6 +69,9 @@ def run(ctx) -> None:
     from . import c16
 
     ctx.reuse("C07.tip-action", c16.override_set)
+    from . import c06 as _c06
+
+    ctx.guard("C07.tip-action", _c06.ctor_stores, "C07.tip-action", ("diti_mode",), 1)
     for meth in ("aspirate", "dispense"):
         ctx.guard("C07.step-block", step_records_only, meth)
     from . import c04, c18
